@@ -161,6 +161,24 @@ func runC07(c *Ctx, d c07Desc) {
 		}
 		mu.Unlock()
 	}
+	// a stray request issued by a faulty step (a second concurrent next, an extension asking for the runtime's
+	// event) is misbehaviour for as long as it is outstanding: the process "behaves correctly again" only
+	// once the request has come back
+	strayOpen := 0
+	stray := func(f func() *vh.Resp) {
+		mu.Lock()
+		strayOpen++
+		mu.Unlock()
+		go func() {
+			r := f()
+			mu.Lock()
+			strayOpen--
+			if r != nil && r.RetSeq > lastFaultSeq {
+				lastFaultSeq = r.RetSeq
+			}
+			mu.Unlock()
+		}()
+	}
 	staleID := "11111111-2222-3333-4444-555555555555"
 	healthyRt := func(p *vh.Proc, pt *vh.Party) vh.Exit {
 		for {
@@ -289,7 +307,7 @@ func runC07(c *Ctx, d c07Desc) {
 					case "two-next":
 						fault(p, s)
 						p2 := vh.NewParty(pt.Src+"#2", w.E.Addr, w.E.Log, p.Ctx)
-						go p2.Next()
+						stray(p2.Next)
 						time.Sleep(time.Millisecond)
 					case "half-body":
 						fault(p, s)
@@ -450,7 +468,7 @@ func runC07(c *Ctx, d c07Desc) {
 					case "rt-next":
 						fault(p, s)
 						p2 := vh.NewParty(pt.Src+"#rapi", w.E.Addr, w.E.Log, p.Ctx)
-						go p2.Next()
+						stray(p2.Next)
 					case "rt-respond":
 						fault(p, s)
 						pt.Respond(staleID, []byte("from-extension"), nil)
@@ -579,6 +597,10 @@ func runC07(c *Ctx, d c07Desc) {
 	evs := w.E.Log.Snapshot()
 	mu.Lock()
 	clean := lastFaultSeq
+	if strayOpen > 0 {
+		// a stray request of a faulty step is still outstanding: no invocation so far was made "after recovery"
+		clean = 1 << 62
+	}
 	mu.Unlock()
 	for _, p := range w.E.Sup.Procs() {
 		mu.Lock()
@@ -630,7 +652,7 @@ func runC07(c *Ctx, d c07Desc) {
 	}
 	c.SetTrace(strings.Join(out, ",")+NormTrace(evs, func(e vh.Event) bool { return e.Src == "sup" && e.Kind == "exit" }), true)
 	if c.WantSample || c.Violated() {
-		c.SetSample(sampleLog(w, 300))
+		c.SetSample(sampleLog(w, 1500))
 	}
 }
 
